@@ -79,6 +79,17 @@ func c11Paths(maxComps int) []string {
 			}
 		}
 	}
+	// the same short paths written with backslashes (an ordinary file-name character here: anything that
+	// turns them into separators after the containment step escapes)
+	n0 := len(out)
+	for _, p := range out[:n0] {
+		if strings.Count(p, "/") >= 1 && strings.Count(p, "/") <= 4 && strings.Contains(p, "..") {
+			out = append(out, strings.ReplaceAll(p, "/", "\\"))
+			if strings.HasPrefix(p, "/") {
+				out = append(out, "/"+strings.ReplaceAll(p[1:], "/", "\\"))
+			}
+		}
+	}
 	return out
 }
 
